@@ -21,6 +21,8 @@ def col_literal(col):
 def make_dataset(rng, fam):
     d = gen.any_dataset(rng, fam)
     ds = d.ds
+    if rng.random() < 0.3:
+        ds = gen.label_dimensions(rng, ds, list(d.spec['kinds']['face']))      # unsorted labels on the horizontal dimensions
     # SHOC conventions find their depth coordinates by fixed names
     nm1, nm2, sed = {'shoc_standard': ('z_centre', 'z_grid', 'z_centre_sed'),
                      'shoc_simple': ('zc', None, 'zcsed')}.get(d.family, (None, None, 'ksed_centre'))
